@@ -51,6 +51,7 @@ import (
 	"path/filepath"
 	"runtime"
 	"runtime/debug"
+	"runtime/pprof"
 	"sort"
 	"strings"
 	"sync"
@@ -160,8 +161,22 @@ type addr struct {
 }
 
 type history struct {
-	MaxAttempts int    `json:"max_attempts"` // 0 = edgesync.DefaultMaxAttempts
+	Cfg         string `json:"cfg,omitempty"`  // "" = the 2-file universe; cfgChain = single-file attempt chain (chain.go)
+	Runs        int    `json:"runs,omitempty"` // main (perturbable) runs; 0 = mainRuns
+	MaxAttempts int    `json:"max_attempts"`   // 0 = edgesync.DefaultMaxAttempts
 	Perts       []pert `json:"perturbations"`
+}
+
+// with returns the same universe / run count / retry cap with another perturbation list.
+func (h history) with(perts []pert) history {
+	return history{Cfg: h.Cfg, Runs: h.Runs, MaxAttempts: h.MaxAttempts, Perts: perts}
+}
+
+func (h history) nRuns() int {
+	if h.Runs > 0 {
+		return h.Runs
+	}
+	return mainRuns
 }
 
 func (h history) String() string {
@@ -176,6 +191,9 @@ func (h history) String() string {
 	if h.MaxAttempts != 0 {
 		out = fmt.Sprintf("max_attempts=%d|%s", h.MaxAttempts, out)
 	}
+	if h.Cfg != "" {
+		out = fmt.Sprintf("%s/%druns|%s", h.Cfg, h.nRuns(), out)
+	}
 	return out
 }
 
@@ -186,6 +204,7 @@ type pointInfo struct {
 	IsCall   bool
 	IsPut    bool
 	BodyOK   bool     // put: the body could be read (the request can reach the hub at all)
+	BodyLen  int      // put: bytes the spoke transmits (file size - checkpoint)
 	Events   []string // events applicable at this point (measured on the real state)
 	HasEvent bool
 	HasFault bool
@@ -231,6 +250,9 @@ type world struct {
 	outcomeSeen  map[string]int
 	closingRuns  int
 	agentErrs    int
+	keyPending   bool           // the last perturbation was a call fault: take the dedup key at the end of that run
+	key          string         // chain.go: full state right after the last perturbation took effect
+	ckSeen       map[string]int // chain.go: spoke checkpoint vs hub staged length, measured at every PutFile
 }
 
 func must(err error, what string) {
@@ -261,7 +283,7 @@ CREATE TRIGGER IF NOT EXISTS zz_verif_del AFTER DELETE ON sync_ledger BEGIN
 
 func newWorld(dir string, h history) *world {
 	w := &world{dir: dir, h: h, plan: map[addr][]pert{}, occ: map[string]int{}, hubCompacted: map[string]bool{},
-		violSeen: map[string]bool{}, transSeen: map[string]int{}, outcomeSeen: map[string]int{}}
+		violSeen: map[string]bool{}, transSeen: map[string]int{}, outcomeSeen: map[string]int{}, ckSeen: map[string]int{}}
 	for _, p := range h.Perts {
 		a := addr{p.Run, p.At, p.Occ}
 		w.plan[a] = append(w.plan[a], p)
@@ -273,7 +295,7 @@ func newWorld(dir string, h history) *world {
 	w.hubBE, err = storage.NewLocalBackend(filepath.Join(dir, "hub"), zerolog.Nop())
 	must(err, "hub backend")
 	ctx := context.Background()
-	for _, p := range []string{pF1, pF2} {
+	for _, p := range universe(h) {
 		must(w.spokeBE.Write(ctx, p, contentOf[p]), "write spoke file")
 	}
 	w.obsDB = openSQLite(filepath.Join(dir, "ledger.db"))
@@ -316,7 +338,9 @@ func (w *world) violate(kind, detail string) {
 func (w *world) hubFinal(p string) string {
 	return filepath.Join(w.dir, "hub", filepath.FromSlash(edgesync.NamespacedPath(spokeID, p)))
 }
-func (w *world) spokeFile(p string) string { return filepath.Join(w.dir, "spoke", filepath.FromSlash(p)) }
+func (w *world) spokeFile(p string) string {
+	return filepath.Join(w.dir, "spoke", filepath.FromSlash(p))
+}
 
 func exists(p string) bool { _, err := os.Stat(p); return err == nil }
 
@@ -481,7 +505,10 @@ func (w *world) ledgerStates() map[string]string {
 
 // ---------------------------------------------------------------- events
 
-func (w *world) applicableEvents() []string {
+func (w *world) applicableEvents(at string) []string {
+	if w.h.Cfg == cfgChain {
+		return w.chainEvents(at)
+	}
 	var out []string
 	s1, s2 := exists(w.spokeFile(pF1)), exists(w.spokeFile(pF2))
 	if s1 {
@@ -547,22 +574,30 @@ func (w *world) applyEvent(e string) {
 	case evHubSweep:
 		_, err := w.recv.SweepStaging(ctx, 0, time.Now().Add(time.Hour))
 		must(err, e)
+	case evCut0, evCut1, evCutMid, evCutLast:
+		w.applyCut(e)
 	default:
 		ev.Unbound("unknown event " + e)
 	}
 }
 
 // point registers one perturbation point, applies a planned event and returns the planned fault/crash.
-func (w *world) point(at string, isCall, isPut, bodyOK bool) string {
+func (w *world) point(at string, isCall, isPut, bodyOK bool, bodyLen int) string {
 	w.observe()
+	if at == "gap" && w.keyPending {
+		// end of the run that held the history's last perturbation (a call fault / crash), before any gap event
+		w.keyPending = false
+		w.key = fmt.Sprintf("r%d|end|%s", w.run, w.fullState())
+	}
 	w.occ[fmt.Sprintf("%d/%s", w.run, at)]++
 	a := addr{w.run, at, w.occ[fmt.Sprintf("%d/%s", w.run, at)]}
-	pi := pointInfo{A: a, IsCall: isCall, IsPut: isPut, BodyOK: bodyOK}
-	if (w.wantEv && w.run <= mainRuns) || len(w.plan[a]) > 0 {
-		pi.Events = w.applicableEvents()
+	pi := pointInfo{A: a, IsCall: isCall, IsPut: isPut, BodyOK: bodyOK, BodyLen: bodyLen}
+	if (w.wantEv && w.run <= w.h.nRuns()) || len(w.plan[a]) > 0 {
+		pi.Events = w.applicableEvents(at)
 	}
 	outcome := oPass
 	for _, p := range w.plan[a] {
+		isLast := w.h.Cfg == cfgChain && p == w.h.Perts[len(w.h.Perts)-1]
 		switch p.Kind {
 		case "event":
 			pi.HasEvent = true
@@ -577,6 +612,9 @@ func (w *world) point(at string, isCall, isPut, bodyOK bool) string {
 			w.steps++
 			w.trace = append(w.trace, "  event "+p.String())
 			w.applyEvent(p.What)
+			if isLast {
+				w.key = fmt.Sprintf("r%d|%s|ev|%s", w.run, at, w.fullState())
+			}
 		default:
 			pi.HasFault = true
 			if !isCall || (isPut && !bodyOK) {
@@ -584,6 +622,7 @@ func (w *world) point(at string, isCall, isPut, bodyOK bool) string {
 				continue
 			}
 			outcome = p.What
+			w.keyPending = isLast
 		}
 	}
 	delete(w.plan, a)
@@ -608,7 +647,7 @@ func (t *faultTransport) Reconcile(ctx context.Context, hub string, pending []*e
 	if err := ctx.Err(); err != nil {
 		return nil, err
 	}
-	o := w.point("reconcile", true, false, true)
+	o := w.point("reconcile", true, false, true, 0)
 	w.steps++
 	names := make([]string, len(pending))
 	entries := make([]edgesync.ReconcileEntry, len(pending))
@@ -678,7 +717,7 @@ func (t *faultTransport) PutFile(ctx context.Context, hub string, entry *edgesyn
 	// The HTTP client streams the body out of the agent's pipe and the hub buffers it whole before the
 	// handler runs (StreamRequestBody=false): a body that cannot be read never reaches the receiver.
 	data, rerr := io.ReadAll(body)
-	o := w.point("put("+nameOf(entry.Path)+")", true, true, rerr == nil)
+	o := w.point("put("+nameOf(entry.Path)+")", true, true, rerr == nil, len(data))
 	w.steps++
 	call := fmt.Sprintf("  r%d put(%s) offset=%d body=%d %s", w.run, nameOf(entry.Path), offset, len(data), o)
 	if rerr != nil {
@@ -699,6 +738,15 @@ func (t *faultTransport) PutFile(ctx context.Context, hub string, entry *edgesyn
 		w.trace = append(w.trace, call+" -> 409")
 		return &edgesync.PutResult{Outcome: edgesync.OutcomeConflict, TheirSHA256: fakeSHA}, nil
 	}
+	// chain.go outcomes: short@<pos>[+lost-ack|+crash] = the body is cut after grid position <pos>, and the hub's
+	// answer is lost / the spoke dies before it can record it
+	after := ""
+	if base, aft, ok := parseShortAt(o); ok {
+		after = aft
+		o = oShortAt
+		data = data[:cutPos(base, len(data))]
+	}
+	w.noteCheckpoint(entry.Path, offset)
 	send := data
 	if o == oShort || o == oShortDrop || o == oShortCorrupt {
 		send = send[:len(send)/2]
@@ -718,6 +766,9 @@ func (t *faultTransport) PutFile(ctx context.Context, hub string, entry *edgesyn
 		if res.Outcome == edgesync.OutcomeCommitted && hadCopy {
 			w.violate("stored-twice", fmt.Sprintf("the receiver committed %s again although the hub already held a copy", nameOf(entry.Path)))
 		}
+	}
+	if after != "" {
+		o = after
 	}
 	switch o {
 	case oDropA, oShortDrop:
@@ -770,10 +821,11 @@ func (w *world) agentRun() {
 func terminal(s string) bool { return s == "synced" || s == "skipped" || s == "failed" }
 
 func (w *world) execute() {
-	for w.run = 1; w.run <= mainRuns; w.run++ {
+	runs := w.h.nRuns()
+	for w.run = 1; w.run <= runs; w.run++ {
 		w.trace = append(w.trace, fmt.Sprintf("run %d", w.run))
 		w.agentRun()
-		w.point("gap", false, false, true)
+		w.point("gap", false, false, true, 0)
 	}
 	if len(w.plan) > 0 && w.inapplicable == "" {
 		for _, ps := range w.plan {
@@ -782,7 +834,7 @@ func (w *world) execute() {
 	}
 	// O4: perturbations have stopped; fault-free runs until quiescent
 	for i := 1; i <= maxClose; i++ {
-		w.run = mainRuns + i
+		w.run = runs + i
 		w.trace = append(w.trace, fmt.Sprintf("closing run %d", i))
 		before := w.logPos
 		w.agentRun()
@@ -821,6 +873,8 @@ type result struct {
 	closingRuns  int
 	agentErrs    int
 	final        string
+	key          string
+	ckSeen       map[string]int
 }
 
 var (
@@ -839,7 +893,7 @@ func runHistory(h history, wantEv bool) *result {
 	w.execute()
 	wd.Stop()
 	r := &result{h: h, points: w.points, viols: w.viols, inapplicable: w.inapplicable, trace: w.trace, canons: w.canons, steps: w.steps,
-		transSeen: w.transSeen, outcomeSeen: w.outcomeSeen, closingRuns: w.closingRuns, agentErrs: w.agentErrs}
+		transSeen: w.transSeen, outcomeSeen: w.outcomeSeen, closingRuns: w.closingRuns, agentErrs: w.agentErrs, key: w.key, ckSeen: w.ckSeen}
 	if n := len(w.canons); n > 0 {
 		r.final = w.canons[n-1]
 	}
@@ -889,10 +943,10 @@ func children(r *result, b bounds) []history {
 	}
 	var out []history
 	add := func(p pert) {
-		out = append(out, history{MaxAttempts: r.h.MaxAttempts, Perts: append(append([]pert{}, r.h.Perts...), p)})
+		out = append(out, r.h.with(append(append([]pert{}, r.h.Perts...), p)))
 	}
 	for i, pi := range r.points {
-		if pi.A.Run > mainRuns || i < last || (i == last && !lastWasEvent) {
+		if pi.A.Run > r.h.nRuns() || i < last || (i == last && !lastWasEvent) {
 			continue
 		}
 		if i > last && e < b.E {
@@ -901,6 +955,23 @@ func children(r *result, b bounds) []history {
 			}
 		}
 		if !pi.IsCall || (pi.IsPut && !pi.BodyOK) {
+			continue
+		}
+		if r.h.Cfg == cfgChain {
+			// the per-attempt alphabet of the chain universe; reconcile calls stay clean there
+			if pi.IsPut {
+				fs, cs := chainPutOutcomes(pi.BodyLen)
+				for _, o := range fs {
+					if f < b.F {
+						add(pert{pi.A.Run, pi.A.At, pi.A.Occ, "fault", o})
+					}
+				}
+				for _, o := range cs {
+					if c < b.C {
+						add(pert{pi.A.Run, pi.A.At, pi.A.Occ, "crash", o})
+					}
+				}
+			}
 			continue
 		}
 		if f < b.F {
@@ -941,14 +1012,17 @@ func classSig(h history) string {
 	var parts []string
 	for _, p := range h.Perts {
 		if p.Kind == "event" {
-			parts = append(parts, name(p.What))
+			parts = append(parts, name(gridless(p.What)))
 		} else {
-			parts = append(parts, name(p.At)+"="+p.What)
+			parts = append(parts, name(p.At)+"="+gridless(p.What))
 		}
 	}
 	out := strings.Join(parts, ";")
 	if h.MaxAttempts != 0 {
 		out = fmt.Sprintf("max_attempts=%d;%s", h.MaxAttempts, out)
+	}
+	if h.Cfg != "" {
+		out = h.Cfg + ":" + out
 	}
 	return out
 }
@@ -975,35 +1049,58 @@ func main() {
 	}
 
 	debug.SetGCPercent(400)
+	if pf := os.Getenv("VERIF_C27_PROF"); pf != "" {
+		f, _ := os.Create(pf)
+		pprof.StartCPUProfile(f)
+		defer pprof.StopCPUProfile()
+	}
 	// bounds per ledger configuration (max_attempts 0 = the default, 5). The max_attempts=2 configuration
 	// exists to reach the retry cap (in_flight -> failed through MarkFailed) with two faults on one file; it is
 	// explored without storage events.
 	type config struct {
+		cfg      string // "" = 2-file universe (DFS over perturbation placements), cfgChain = single-file attempt chain
+		runs     int    // main runs (0 = mainRuns)
 		attempts int
 		b        bounds
 	}
-	configs := []config{{0, bounds{F: 2, C: 1, E: 2, Total: 3}}, {2, bounds{F: 2, C: 1, E: 0, Total: 3}}}
+	all := bounds{F: 99, C: 99, E: 99, Total: 99} // chain universe: every placement in every main run
+	configs := []config{{"", 0, 0, bounds{F: 2, C: 1, E: 2, Total: 3}}, {"", 0, 2, bounds{F: 2, C: 1, E: 0, Total: 3}},
+		{cfgChain, 4, 0, all}, {cfgChain, 3, 2, all}}
 	if run.Quick() {
-		configs = []config{{0, bounds{F: 1, C: 1, E: 1, Total: 2}}}
+		configs = []config{{"", 0, 0, bounds{F: 1, C: 1, E: 1, Total: 2}}, {cfgChain, 3, 0, all}}
 	}
 	if s := os.Getenv("VERIF_C27_BOUNDS"); s != "" { // F,C,E,Total for the default configuration (experiments only)
 		var b bounds
 		fmt.Sscanf(s, "%d,%d,%d,%d", &b.F, &b.C, &b.E, &b.Total)
-		configs = []config{{0, b}}
+		configs = []config{{"", 0, 0, b}}
 	}
-	boundOf := map[int]bounds{}
-	var attempts []int
+	if s := os.Getenv("VERIF_C27_CHAIN"); s != "" { // runs,max_attempts: only this chain configuration (experiments only)
+		c := config{cfg: cfgChain, b: all}
+		fmt.Sscanf(s, "%d,%d", &c.runs, &c.attempts)
+		configs = []config{c}
+	}
+	noDedup := os.Getenv("VERIF_C27_NODEDUP") != "" // experiments only: chain universe without state matching
+	cfgKey := func(h history) string { return fmt.Sprintf("%s/%d", h.Cfg, h.MaxAttempts) }
+	boundOf := map[string]bounds{}
+	var roots, chainRoots []history
 	var boundDesc []string
 	for _, c := range configs {
-		boundOf[c.attempts] = c.b
-		attempts = append(attempts, c.attempts)
-		boundDesc = append(boundDesc, fmt.Sprintf("max_attempts=%d: <=%d call faults, <=%d spoke crash, <=%d storage event, <=%d perturbations in total",
-			attemptsNames([]int{c.attempts})[0], c.b.F, c.b.C, c.b.E, c.b.Total))
+		root := history{Cfg: c.cfg, Runs: c.runs, MaxAttempts: c.attempts}
+		boundOf[cfgKey(root)] = c.b
+		if c.cfg == cfgChain {
+			chainRoots = append(chainRoots, root)
+			boundDesc = append(boundDesc, fmt.Sprintf("chain universe (1 file, %d main runs, max_attempts=%d): every per-attempt outcome of the chain alphabet on every transfer attempt and every applicable staging event in every gap, explored with state matching",
+				root.nRuns(), attemptsNames([]int{c.attempts})[0]))
+			continue
+		}
+		roots = append(roots, root)
+		boundDesc = append(boundDesc, fmt.Sprintf("2 files, %d main runs, max_attempts=%d: <=%d call faults, <=%d spoke crash, <=%d storage event, <=%d perturbations in total",
+			root.nRuns(), attemptsNames([]int{c.attempts})[0], c.b.F, c.b.C, c.b.E, c.b.Total))
 	}
 	// own wall-clock cap below the tier budget: a capped run reports exhaustive=false
 	capAt := time.Now().Add(12 * time.Minute)
 	if run.Quick() {
-		capAt = time.Now().Add(50 * time.Second)
+		capAt = time.Now().Add(80 * time.Second)
 	}
 
 	var (
@@ -1017,6 +1114,8 @@ func main() {
 		transSeen   = map[string]int{}
 		outcomeSeen = map[string]int{}
 		faultFired  = map[string]int{}
+		ckSeen      = map[string]int{}
+		perCfg      = map[string]int{}
 		histories   int
 		inapplic    int
 		transitions int
@@ -1027,13 +1126,58 @@ func main() {
 		small       []*result
 		longest     *result
 	)
-	for _, a := range attempts {
-		stack = append(stack, history{MaxAttempts: a})
+	// account books one executed history (caller holds mu)
+	account := func(r *result) {
+		h := r.h
+		if r.inapplicable != "" {
+			inapplic++ // cannot happen for generated children; kept as a self-check
+			return
+		}
+		histories++
+		uni := "2-file"
+		if h.Cfg != "" {
+			uni = h.Cfg
+		}
+		perCfg[fmt.Sprintf("%s %d runs max_attempts=%d", uni, h.nRuns(), attemptsNames([]int{h.MaxAttempts})[0])]++
+		transitions += r.steps
+		closing += r.closingRuns
+		agentErrs += r.agentErrs
+		if r.closingRuns > maxClosing {
+			maxClosing = r.closingRuns
+		}
+		for _, c := range r.canons {
+			states[h.Cfg+" "+c] = struct{}{}
+		}
+		finals[h.Cfg+" "+r.final] = struct{}{}
+		for k, n := range r.transSeen {
+			transSeen[k] += n
+		}
+		for k, n := range r.outcomeSeen {
+			outcomeSeen[k] += n
+		}
+		for k, n := range r.ckSeen {
+			ckSeen[k] += n
+		}
+		for _, p := range h.Perts {
+			faultFired[p.What]++
+		}
+		for _, v := range r.viols {
+			fails = append(fails, failing{h, v})
+		}
+		if len(h.Perts) <= 1 && h.MaxAttempts == 0 {
+			small = append(small, r)
+		}
+		if longest == nil || len(r.trace) > len(longest.trace) || (len(r.trace) == len(longest.trace) && r.h.String() < longest.h.String()) {
+			longest = r
+		}
 	}
-	outstanding = len(stack)
 	workers := runtime.GOMAXPROCS(0)
+
+	// ---- phase 1: the 2-file universe, stateless DFS over perturbation placements
+	stack = append(stack, roots...)
+	outstanding = len(stack)
 	var wg sync.WaitGroup
-	for i := 0; i < workers; i++ {
+	for i := 0; i < workers && len(roots) > 0; i++ {
 		wg.Add(1)
 		go func() {
 			defer wg.Done()
@@ -1051,7 +1195,7 @@ func main() {
 				stack = stack[:len(stack)-1]
 				mu.Unlock()
 
-				b := boundOf[h.MaxAttempts]
+				b := boundOf[cfgKey(h)]
 				_, _, ne := count(h)
 				r := runHistory(h, ne < b.E && len(h.Perts) < b.Total)
 				var kids []history
@@ -1060,39 +1204,7 @@ func main() {
 				}
 
 				mu.Lock()
-				if r.inapplicable != "" {
-					inapplic++ // cannot happen for generated children; kept as a self-check
-				} else {
-					histories++
-					transitions += r.steps
-					closing += r.closingRuns
-					agentErrs += r.agentErrs
-					if r.closingRuns > maxClosing {
-						maxClosing = r.closingRuns
-					}
-					for _, c := range r.canons {
-						states[c] = struct{}{}
-					}
-					finals[r.final] = struct{}{}
-					for k, n := range r.transSeen {
-						transSeen[k] += n
-					}
-					for k, n := range r.outcomeSeen {
-						outcomeSeen[k] += n
-					}
-					for _, p := range h.Perts {
-						faultFired[p.What]++
-					}
-					for _, v := range r.viols {
-						fails = append(fails, failing{h, v})
-					}
-					if len(h.Perts) <= 1 && h.MaxAttempts == 0 {
-						small = append(small, r)
-					}
-					if longest == nil || len(r.trace) > len(longest.trace) || (len(r.trace) == len(longest.trace) && r.h.String() < longest.h.String()) {
-						longest = r
-					}
-				}
+				account(r)
 				stack = append(stack, kids...)
 				outstanding += len(kids) - 1
 				if run.TimeUp() || time.Now().After(capAt) {
@@ -1104,6 +1216,61 @@ func main() {
 		}()
 	}
 	wg.Wait()
+
+	// ---- phase 2: the chain universe, level-synchronous search with state matching (chain.go). A level = all
+	// histories with the same number of perturbations, executed in parallel and then booked in generation order,
+	// so which history represents a state (and therefore every count and every minimal counterexample) is
+	// reproducible.
+	chainKeys, chainPruned, chainLevels := 0, 0, 0
+	for _, root := range chainRoots {
+		b := boundOf[cfgKey(root)]
+		seen := map[string]bool{}
+		level := []history{root}
+		for depth := 0; len(level) > 0 && !stop; depth++ {
+			results := make([]*result, len(level))
+			var next int64 = -1
+			var lw sync.WaitGroup
+			for i := 0; i < workers; i++ {
+				lw.Add(1)
+				go func() {
+					defer lw.Done()
+					for {
+						j := int(atomic.AddInt64(&next, 1))
+						if j >= len(level) || run.TimeUp() || time.Now().After(capAt) {
+							return
+						}
+						results[j] = runHistory(level[j], true)
+					}
+				}()
+			}
+			lw.Wait()
+			var nextLevel []history
+			for _, r := range results {
+				if r == nil {
+					stop = true // capped: part of this level was not executed
+					continue
+				}
+				account(r)
+				if r.inapplicable != "" || len(r.viols) > 0 {
+					continue
+				}
+				if r.key != "" && !noDedup {
+					k := fmt.Sprintf("%s|%s", budgetKey(r.h, b), r.key)
+					if seen[k] {
+						chainPruned++
+						continue
+					}
+					seen[k] = true
+				}
+				nextLevel = append(nextLevel, children(r, b)...)
+			}
+			level = nextLevel
+			if depth+1 > chainLevels {
+				chainLevels = depth + 1
+			}
+		}
+		chainKeys += len(seen)
+	}
 	exhaustive := !stop
 
 	if inapplic > 0 {
@@ -1128,13 +1295,14 @@ func main() {
 	}
 	var classes []class
 	subset := func(small, big history) bool {
-		if small.MaxAttempts != 0 && small.MaxAttempts != big.MaxAttempts {
+		if (small.MaxAttempts != 0 && small.MaxAttempts != big.MaxAttempts) || small.Cfg != big.Cfg {
 			return false
 		}
 		for _, p := range small.Perts {
 			found := false
 			for _, q := range big.Perts {
-				found = found || (p.At == q.At && p.Kind == q.Kind && p.What == q.What) || (p.Kind == "event" && q.Kind == "event" && p.What == q.What)
+				pw, qw := gridless(p.What), gridless(q.What)
+				found = found || (p.At == q.At && p.Kind == q.Kind && pw == qw) || (p.Kind == "event" && q.Kind == "event" && pw == qw)
 			}
 			if !found {
 				return false
@@ -1182,7 +1350,7 @@ func main() {
 		// re-addressed to an earlier run when the runs before it have nothing left to do), prefer the default
 		// retry cap. 1-minimal: no single perturbation can be dropped any more.
 		shifted := func(h history, from, d int) (history, bool) {
-			out := history{MaxAttempts: h.MaxAttempts, Perts: append([]pert{}, h.Perts...)}
+			out := h.with(append([]pert{}, h.Perts...))
 			for i := from; i < len(out.Perts); i++ {
 				out.Perts[i].Run -= d
 				if out.Perts[i].Run < 1 || (i > 0 && out.Perts[i].Run < out.Perts[i-1].Run) {
@@ -1208,15 +1376,16 @@ func main() {
 		}
 		cur := f.h
 		if cur.MaxAttempts != 0 {
-			if ok, _ := failsWith(history{Perts: cur.Perts}); ok {
-				cur.MaxAttempts = 0
+			dflt := cur
+			dflt.MaxAttempts = 0
+			if ok, _ := failsWith(dflt); ok {
+				cur = dflt
 			}
 		}
 		for changed := true; changed; {
 			changed = false
 			for i := range cur.Perts {
-				cand := history{MaxAttempts: cur.MaxAttempts}
-				cand.Perts = append(append([]pert{}, cur.Perts[:i]...), cur.Perts[i+1:]...)
+				cand := cur.with(append(append([]pert{}, cur.Perts[:i]...), cur.Perts[i+1:]...))
 				if v, ok := failsSomehow(cand); ok {
 					cur, changed = v, true
 					break
@@ -1260,7 +1429,12 @@ func main() {
 	run.Coverage["traces_validated_against_impl"] = histories
 	run.Coverage["samples"] = sl
 	run.Coverage["exhaustive"] = exhaustive
-	run.Coverage["bound_completed"] = fmt.Sprintf("2 files, %d main runs + <=%d fault-free closing runs; %s", mainRuns, maxClose, strings.Join(boundDesc, "; "))
+	run.Coverage["bound_completed"] = fmt.Sprintf("every history is followed by <=%d fault-free closing runs; %s", maxClose, strings.Join(boundDesc, "; "))
+	run.Coverage["histories_per_configuration"] = perCfg
+	run.Coverage["chain_distinct_states_expanded"] = chainKeys
+	run.Coverage["chain_histories_not_extended_state_already_expanded"] = chainPruned
+	run.Coverage["chain_levels"] = chainLevels
+	run.Coverage["chain_checkpoint_vs_hub_staged_at_put"] = ckSeen
 	run.Coverage["distinct_outcomes"] = len(finals)
 	run.Coverage["histories"] = histories
 	run.Coverage["raw_violating_histories"] = len(fails)
@@ -1270,19 +1444,25 @@ func main() {
 	run.Coverage["ledger_transitions_observed"] = transSeen
 	run.Coverage["receiver_outcomes_observed"] = outcomeSeen
 	run.Coverage["perturbations_executed"] = faultFired
-	run.Coverage["alphabet"] = map[string]any{"put_faults": putFaults, "reconcile_faults": recFaults, "crash": crashKinds, "events": allEvents}
+	cf, cc := chainPutOutcomes(len(contentOf[pF1]))
+	run.Coverage["alphabet"] = map[string]any{"put_faults": putFaults, "reconcile_faults": recFaults, "crash": crashKinds, "events": allEvents,
+		"chain_put_outcomes": append(append([]string{oPass}, cf...), cc...), "chain_gap_events": chainEventKinds}
 	run.Coverage["rule"] = "a history is a set of perturbations attached to points of a 3-run execution (k-th transport call of run r, or the gap after run r); " +
 		"children of an executed history add one perturbation at every later point the parent's trace shows (every fault of the call kind's alphabet, every crash kind, every event applicable in the real state at that point), " +
 		"so every placement within the bound is executed exactly once; a state is the canonical dump (ledger rows, spoke files, hub final files, hub staging, hub receipts, hub-compacted set) at a step boundary; " +
-		"a transition is one implementation step (agent run start, transport call served by the real hub, storage event); violating histories are not extended"
+		"a transition is one implementation step (agent run start, transport call served by the real hub, storage event); violating histories are not extended. " +
+		chainRule
 	run.Assume("MaxConcurrent=1 and one reconcile page (BatchSize=0): transfers of one pass are sequential, so the k-th call is well defined; concurrency of sendAll is not explored here")
 	run.Assume("spoke crash = context cancellation at a transport call (no ledger write succeeds afterwards) + a fresh Agent/Ledger/SQLite handle; a kill inside a SQLite transaction is not modelled")
 	run.Assume("the hub process itself does not crash; hub compaction is modelled as cmd/arc wires it (MarkCompacted, then source deletion), hub retention/rm as a bare delete without HubIndex.Forget (the documented #611 gap)")
 	run.Assume("ledger transitions of features outside the universe (air-gap export, operator requeue/dismiss, pruning) are not allowed to appear; transport is faultTransport = HTTPTransport+handler semantics without HTTP/HMAC")
+	run.Assume(chainAssume)
 	run.Assume("short-body = first half of the transmitted bytes; corrupted = one flipped byte in the middle of the transmitted bytes; injected conflict/backpressure answers do not touch hub state")
-	fmt.Printf("C27: histories=%d states=%d transitions=%d final-outcomes=%d raw-violating=%d classes=%d exhaustive=%v closing(max)=%d\n",
-		histories, len(states), transitions, len(finals), len(fails), run.ViolationClasses(), exhaustive, maxClosing)
+	fmt.Printf("C27: histories=%d %v states=%d transitions=%d final-outcomes=%d raw-violating=%d classes=%d exhaustive=%v closing(max)=%d\n",
+		histories, perCfg, len(states), transitions, len(finals), len(fails), run.ViolationClasses(), exhaustive, maxClosing)
+	fmt.Printf("C27: chain universe: levels=%d states-expanded=%d not-extended(state seen)=%d checkpoint-vs-staged=%v\n", chainLevels, chainKeys, chainPruned, ckSeen)
 	cleanup()
+	pprof.StopCPUProfile()
 	run.Finish()
 }
 
